@@ -16,7 +16,7 @@ RULE = ("conv probe, parameters against a reference: MAIL/RCPT lines built from 
         "reference grammar into valid / invalid(class) / unspecified and the parser's verdict judged. conv probe: MAIL/RCPT lines with each "
         "parameter x {good, bad value, disabled, duplicated, lower-case, long-s spelled} x flag sets. "
         "non-trivial = the string contains '@' or a parameter; distinct = distinct case line")
-THEOREMS = ["C11_exact_mailbox", "C11_special_refused", "C11_null_sender", "C11_quoted_exact"]
+THEOREMS = ["C11_exact_mailbox", "C11_special_refused", "C11_null_sender", "C11_quoted_exact", "C11_mail_exact_or_refused", "C11_mail_refused_before_backend", "C11_rcpt_exact_or_refused"]
 nontrivial = lambda case, ans: "40" in case.split("\t")[-1] or case.startswith("conv")
 signature = lambda case, ans: (case.split("\t")[1] + "->" + ans.split("/")[0]) if case.startswith("parse") else cc.signature(case, ans)
 mutate = lambda case, rng: []
